@@ -105,7 +105,20 @@ pub fn run_heur(seed: u64, thorough: bool) {
                 .map(|_| {
                     let nc = rng.range(1, 3);
                     TPattern {
-                        cons: (0..nc).map(|_| random_tcons(&mut rng, nkeys)).collect(),
+                        cons: (0..nc)
+                            .map(|_| {
+                                let mut c = random_tcons(&mut rng, nkeys);
+                                while strategy == 3
+                                    && !matches!(
+                                        c.predicate(),
+                                        crate::table::TPred::NotIn(_) | crate::table::TPred::True(_)
+                                    )
+                                {
+                                    c = random_tcons(&mut rng, nkeys);
+                                }
+                                c
+                            })
+                            .collect(),
                         extra: None,
                         convertible: true,
                     }
